@@ -114,6 +114,11 @@ def bool_facts(t, pol):
         op, a, b = t[1], t[2], t[3]
         if not pol:
             op = _NEG[op]
+        if op in ("Eq", "Ne") and a[0] == "discr" and b[0] == "discr":
+            # derived PartialEq of a field-less enum compares discriminants: x == Variant is `x is Variant`
+            for x, c in ((a, b), (b, a)):
+                if c[1][0] == "adt" and not c[1][3]:
+                    return [_variant_fact(x[1], c[1][2], op == "Eq")]
         return [cmp_fact(op, a, b)]
     if t[0] == "call" and t[1] in _IS_EMPTY and len(t[2]) == 1:
         # canonical emptiness fact: len(x) == 0
